@@ -12,7 +12,7 @@ def run(tier, seed):
     standard_front(chk, 'Props/C11.v', needs_items=('medium_imp', 'ff_f3', 'ff_theta', 'ff_phi'),
                    extra_vo=('Model/FarField.v', 'Proofs/Media.v', 'Corr/FFDriver.v'))
     rng = random.Random(seed)
-    ff_cases(chk, rng, 40 if tier == 'quick' else 400, ('real',))
-    nor = 12 if (tier == 'quick' and not chk.broken) else (40 if tier == 'quick' else 160)
+    ff_cases(chk, rng, 40 if tier == 'quick' else 1600, ('real',))
+    nor = 12 if (tier == 'quick' and not chk.broken) else (40 if tier == 'quick' else 640)
     run_oracle(chk, rng, nor, 'ff.c11_oracle', 'c11-oracle', ('real',))
     return chk.finish()
